@@ -124,7 +124,7 @@ func runReplay(P *Prog, o *Obligation, pkgPath string) (src string, out string, 
 			}
 			return ""
 		},
-		"kind":       func() string { return o.Kind },
+		"kind": func() string { return o.Kind },
 	}
 	t, err := template.New("replay").Funcs(funcs).Parse(string(data))
 	if err != nil {
